@@ -92,6 +92,12 @@ func c18Exec(c *engine.Ctx, cs c18Case) {
 	key := fmt.Sprintf("%s/%s/%s/d%d", cs.Codec, g.Kind, g.Layout, cs.D)
 	fail := func(what, desc string) { c.Violate(key+"/"+what, desc+" model="+g.String(), "c18", cs) }
 	t := g.MustBuild()
+	if cs.D%2 == 1 {
+		// neither format writes the SRID: one set on the geometry (for odd d) changes nothing
+		if _, err := geom.SetSRID(t, 4326); err != nil {
+			panic(err)
+		}
+	}
 	want := ordinatesOf(g)
 	if len(want) == 0 && cs.BBox != 0 {
 		return // the quantifier asks for a bounding box for non-empty geometries only
